@@ -3,6 +3,7 @@ package c03
 import (
 	"fmt"
 	"testing"
+	"time"
 
 	regexp2 "github.com/dlclark/regexp2/v2"
 	"github.com/dlclark/regexp2/v2/syntax"
@@ -41,7 +42,7 @@ func TestMain(m *testing.M) {
 }
 
 func gen1(t *rapid.T) Case {
-	cfg := gen.Cfg{Depth: 3, Full: true, Inline: "imsx"}
+	cfg := gen.Cfg{Depth: 3, Full: true, Inline: "imsx", Magic: true}
 	o, base := gen.FullOpts(t, true, true, true)
 	c := Case{Spec: eng.Spec{Options: int32(o)}}
 	c.Spec.CodeGen = rapid.IntRange(0, 2).Draw(t, "codegen") == 0
@@ -76,13 +77,24 @@ func gen1(t *rapid.T) Case {
 		var in []rune
 		switch {
 		case root != nil && i%4 == 0:
-			in = gen.NearMiss(t, root, alpha, 40)
+			in = gen.NearMiss(t, root, alpha, 80)
 		case root != nil && i%4 != 3:
-			in = gen.Directed(t, root, o&regexp2.RE2 != 0, alpha, false, 24)
+			in = gen.Directed(t, root, o&regexp2.RE2 != 0, alpha, false, 80)
 		default:
 			in = gen.Random(t, alpha, 16)
 		}
-		c.Inputs = append(c.Inputs, []byte(gen.ByteString(t, in, 40)))
+		rate := 40
+		if root != nil && root.Has(func(x *ast.Node) bool {
+			for _, r := range x.R {
+				if r == 0xFFFD {
+					return true
+				}
+			}
+			return false
+		}) {
+			rate = 3 // the pattern searches for U+FFFD: invalid bytes decode to it
+		}
+		c.Inputs = append(c.Inputs, []byte(gen.ByteString(t, in, rate)))
 	}
 	return c
 }
@@ -121,6 +133,7 @@ func check(c Case) error {
 	} else {
 		lits = []rune(c.Spec.Pattern)
 	}
+	over := h.Budget(2 * time.Second)
 	for _, in := range c.Inputs {
 		s := string(in)
 		r := canon.Decode(s)
@@ -130,6 +143,10 @@ func check(c Case) error {
 			lo, hi = c.At, c.At
 		}
 		for at := lo; at <= hi; at++ {
+			if over() {
+				h.Discard("slow-case")
+				return nil
+			}
 			h.Eval()
 			fail := func(msg string) error {
 				red := c
@@ -141,14 +158,14 @@ func check(c Case) error {
 			nm, nerr := regexp2.VerifNaiveFind(re, r, at, at)
 			if nerr != nil {
 				h.Discard("naive-" + canon.ErrClass(nerr))
-				continue
+				return nil // a catastrophic pattern: every further position would cost a full timeout
 			}
 			want := canon.FromMatch(re, nm)
 			pm, perr := re.FindRunesMatchStartingAt(r, at)
 			if perr != nil {
 				if canon.ErrClass(perr) == "timeout" {
 					h.Discard("timeout")
-					continue
+					return nil
 				}
 				return fail("FindRunesMatchStartingAt error: " + perr.Error())
 			}
@@ -163,7 +180,7 @@ func check(c Case) error {
 			if serr != nil {
 				if canon.ErrClass(serr) == "timeout" {
 					h.Discard("timeout")
-					continue
+					return nil
 				}
 				return fail("FindStringMatchStartingAt error: " + serr.Error())
 			}
